@@ -134,6 +134,20 @@ CHECKS = {
              "rotated().flatted().unrotated() construction is the stated map only for matrices).",
         technique="abstract interpretation of -O2 LLVM IR in a polynomial domain (byte-address normal forms)",
     ),
+    "C13": dict(
+        engine="blascall", category="other",
+        text=("Every leaf of the gemm_n (4 conjugation variants) and gemv_n (2 variants) dispatch, under an exhaustive case split of the guard quantities "
+              "(which strides are 1, which sizes are 1 / >= 2; thorough: also 0) over valid general-matrix operands: the issued xGEMM / xGEMV argument list "
+              "denotes the product by polynomial address identities for all three operands, dimensions and trans / conjugation flags, or the case is "
+              "rejected (assertion / exception, in gemm_n or in the context's core::gemm). core::gemm / core::gemv themselves: a legal argument list "
+              "reaches the Fortran symbol unchanged; which illegal leading dimensions are rejected is derived from their IR. Each violation carries a "
+              "concrete member of its case class."),
+        design_ref="DESIGN.md 3/C13",
+        note=IRNOTE + " Decides the dispatch tables (a necessary condition of the numerical result), not numerical values, not the lazy gemm_range / "
+             "operator forms' evaluation order, and not the single-call wrappers (dot, axpy, scal, copy, swap, nrm2, asum, iamax, herk, syrk, trsm). "
+             "Reference-BLAS contract (column-major, ld >= max(1, stored rows)) is encoded in checks/c13.py and trusted.",
+        technique="abstract interpretation of -O2 LLVM IR in a polynomial domain, checked against the reference-BLAS index contract",
+    ),
     "C19": dict(
         engine="irval", category="proof",
         text=("All C01 obligations re-evaluated with a free symbolic first index per dimension (offset_k = f_k*stride_k), plus reindexed, "
@@ -216,8 +230,8 @@ def main():
                  kind_free_text="generated type-level / compile-fail witnesses decided by clang -fsyntax-only"),
             dict(name="irval", path="vlib/irval.py", serves_properties=["C01", "C02", "C06", "C07", "C12", "C19", "C20"],
                  kind_free_text="abstract interpretation (polynomial normal forms) of -O2 LLVM IR of view/iterator index arithmetic"),
-            dict(name="mfacts", path="tools/mfacts.cc", serves_properties=["C02", "C04", "C05", "C06", "C07", "C08", "C09", "C10", "C17", "C18", "C20"],
-                 kind_free_text="libTooling fact extractor over instantiated templates (event CFGs) + Python dataflow rules"),
+            dict(name="mfacts", path="vlib/absint.py", serves_properties=["C02", "C04", "C05", "C06", "C07", "C08", "C09", "C10", "C17", "C18", "C20"],
+                 kind_free_text="path-sensitive abstract interpreter over -O0+mem2reg LLVM IR of instantiated templates (event traces with exception edges) + typestate / effect rules"),
             dict(name="blascall", path="checks/c13.py", serves_properties=["C13"],
                  kind_free_text="contract check of the gemm_n/gemv_n dispatch tables against the reference-BLAS index contract"),
         ],
